@@ -73,7 +73,7 @@ def run(name, repo="/repo", work=None, tier="quick", prop=None, seed=0):
     # ordinary violations
     res["classified"] = {k[len("known_class_"):]: v for k, v in j.items() if k.startswith("known_class_") and v}
     if "selectors" in j:
-        res["bound"] = f"{j['selectors']} selectors of the generated grammar sample x all tag sequences over {j['alphabet']} up to length {j['exhaustive_len']} + {j['seed_documents']} seed documents (independent tree/selector oracle)"
+        res["bound"] = f"{j['selectors']} selectors of the generated grammar sample x all tag sequences over {j['alphabet']} up to length {j['exhaustive_len']} + {j['seed_documents']} seed documents + pseudo-random sequences of 6-12 tokens (1500 quick / 6000 thorough, fixed seed) (independent tree/selector oracle)"
     res["status"] = "ok" if not j["violations"] else "fail"
     res["time_s"] = round(time.time() - t0, 1)
     return res
